@@ -27,7 +27,8 @@ CONFIGS = {
                     Tests={"node()", "*", "a", "text()"}, Preds={"1", "last()"}, ParenPreds={"1"}, Preds2=set(), DocSibs=False, NsTests=set())),
         ('N2', dict(N=2, Kinds={"ea", "eb", "t", "c", "p", "xa"}, RootCfg="R1", Axes=set(AXES),
                     Tests={"node()", "*", "a", "b", "text()", "comment()", "processing-instruction()"},
-                    Preds={"1", "2", "last()", "b"}, ParenPreds={"1", "2", "last()"}, Preds2=set(), DocSibs=False, NsTests=set())),
+                    Preds={"0", "1", "2", "last()", "b"}, ParenPreds={"0", "1", "2", "last()"},
+                    Preds2=set(), DocSibs=False, NsTests=set())),
         ('N3', dict(N=3, Kinds={"ea", "eb", "t", "c", "p", "xa"}, RootCfg="R1", Axes=set(AXES),
                     Tests={"node()", "*", "a", "b", "text()", "comment()", "processing-instruction()"},
                     Preds={"1", "2", "last()", "b"}, ParenPreds={"1", "2", "last()"}, Preds2=set(), DocSibs=False, NsTests=set())),
@@ -46,6 +47,10 @@ CONFIGS = {
         ('N3-DS', dict(N=3, Kinds={"ea", "eb", "c", "p", "t"}, RootCfg="R1", Axes=set(AXES),
                        Tests={"node()", "*", "comment()"}, Preds={"1"},
                        ParenPreds=set(), Preds2=set(), DocSibs=True, NsTests=set())),
+        # boundary positions (0, size, size-1, beyond size) on every axis and on parenthesised sub-paths
+        ('N3-POS', dict(N=3, Kinds={"ea", "eb", "t"}, RootCfg="R1", Axes=set(AXES) - {"attribute"},
+                        Tests={"node()", "*"}, Preds={"0", "3", "last()-1", "position()>1"}, ParenPreds={"0", "3", "last()-1", "position()>1"},
+                        Preds2=set(), DocSibs=False, NsTests=set())),
         # XPath 2.0 kind tests, processing-instruction with a target, 3.0 braced URI literals
         ('N3-KT', dict(N=3, Kinds={"ea", "eb", "en", "t", "p", "xa", "xn"}, RootCfg="R1",
                        Axes={"self", "child", "attribute", "parent", "ancestor-or-self", "descendant", "descendant-or-self",
@@ -436,7 +441,7 @@ def tree_worker(job):
 # (spec/TracePaths.tla evaluates the steps with the operators of Paths.tla)
 
 ALL_TESTS = ["node()", "*", "a", "b", "text()", "comment()", "processing-instruction()"]
-ALL_PREDS = ["1", "2", "last()", "position()<2", "position()<3", "b", "@a", "not(b)", "text()"]
+ALL_PREDS = ["0", "1", "2", "3", "last()", "last()-1", "position()<2", "position()<3", "position()>1", "b", "@a", "not(b)", "text()"]
 AFTER_ATTR = ["parent", "ancestor", "following", "preceding", "child", "descendant",
               "following-sibling", "preceding-sibling"]   # (attribute-context name tests are a known finding)
 
